@@ -174,6 +174,12 @@ class Analyzer:
             return ann in ("float", "int", "bool", "str") or ann.startswith("numpy.ndarray") or ann.startswith("np.ndarray")
 
         imm = {a.arg for a in fn.args.posonlyargs + fn.args.args + fn.args.kwonlyargs if _immutable_annotation(a)}
+        _all = fn.args.posonlyargs + fn.args.args + fn.args.kwonlyargs
+        scalar_rule = (
+            m.name.startswith(("_gettsim.taxes", "_gettsim.transfers", "_gettsim.social_insurance_contributions", "_gettsim.demographic_vars"))
+            and all((ast.unparse(a.annotation) if a.annotation is not None else "") in ("float", "int", "bool", "dict") for a in _all)
+            and "skip_vectorization" not in "".join(ast.unparse(d) for d in fn.decorator_list)
+        )
         env = {p: (({f"param:{p}"}, set(), set()) if p in imm else ({f"param:{p}"}, {f"param:{p}"}, {f"param:{p}"})) for p in params}
         outer_locals = set()
         if ".<locals>." in q:
@@ -481,6 +487,11 @@ class Analyzer:
                     # known to be a fresh object
                     if isinstance(st.value, (ast.List, ast.ListComp)) or (isinstance(st.value, ast.Call) and (dotted(st.value.func) or "") in ("list", "sorted")):
                         write(cur, st, ast.unparse(st)[:60])
+                    elif not scalar_rule and st.target.id in params and cur[0] == {f"param:{st.target.id}"}:
+                        # `arg *= c` on an argument that is an array at run time (converters, kernels and
+                        # glue are called with whole columns, whatever the annotation says) mutates the
+                        # caller's object; scalar policy rules run under numpy.vectorize on immutable scalars
+                        write({f"param:{st.target.id}"}, st, ast.unparse(st)[:60])
                     env[st.target.id] = (set(cur[0]), set(cur[1]) | {r for r in v[0] if r != "fresh"} | v[1], set(cur[2]) | v[1] | v[2])
             elif isinstance(st, ast.Delete):
                 for t in st.targets:
